@@ -252,6 +252,80 @@ def replay_stats(chk, h, consts):
       chk.violation('stats:minmaxcount', f'[{desc}] min/max/count {mm.min}/{mm.max}/{mm.count}, definition gives {h["min"]}/{h["max"]}/{len(vals)}', ctx)
 
 
+def replay_stats_2d(chk, h, h2, consts):
+  """Two independent streams side by side as a 2-column input: every column keeps its own count / mean / variance."""
+  import numpy as np
+  from ml_metrics._src.aggregates import rolling_stats as agg
+  nan = consts['NaN']
+  conv = lambda v: float('nan') if v == nan else float(v)
+  batches = [np.array([[conv(a), conv(b)] for a, b in zip(b1, b2)]) for b1, b2 in zip(h['stream'], h2['stream'])]
+  desc = f'batches={[b.tolist() for b in batches]}'
+  ctx = dict(kind='stats-2d', stream=[h['stream'], h2['stream']])
+  want = []
+  for hh in (h, h2):
+    c = hh['count']
+    want.append((c, hh['total'], hh['total'] / c if c else float('nan'), hh['var_num'] / hh['var_den'] if c else float('nan')))
+  for how in ('add', 'merge'):
+    try:
+      acc = agg.MeanAndVariance()
+      for b in batches:
+        if how == 'add':
+          acc.add(b)
+        else:
+          other = agg.MeanAndVariance()
+          other.add(b)
+          acc.merge(other)
+      col = lambda x, j: np.broadcast_to(np.asarray(x, dtype=float), (2,))[j]      # an accumulator that saw only NaN keeps scalars
+      got = [(col(acc.count, j), col(acc.total, j), col(acc.mean, j), col(acc.var, j)) for j in range(2)]
+    except Exception as e:  # pylint: disable=broad-exception-caught
+      chk.violation(f'stats-2d:exception:{type(e).__name__}', f'[{desc}] {e!r}', ctx)
+      return
+    for j in range(2):
+      for nm, g, w in zip(('count', 'total', 'mean', 'var'), got[j], want[j]):
+        if not close(g, w):
+          chk.violation(f'stats-2d:{how}:{nm}', f'[{desc}] column {j}: {nm} = {g}, definition gives {w}', ctx)
+          return
+
+
+def replay_signals(chk, h):
+  import numpy as np
+  from ml_metrics._src.signals import flip_masks, topk_accuracy
+  if h['kind'] == 'topk':
+    n = len(h['scores'])
+    for c in range(n):
+      for k in range(1, n + 3):
+        want = bool(h['accurate'][c][k - 1])
+        for weighted in ((False, True) if any(w != 1 for w in h['weights']) else (False,)):
+          kw = dict(weights=np.array(h['weights'], dtype=float)) if weighted else {}
+          if not weighted and any(w != 1 for w in h['weights']):
+            continue
+          ctx = dict(kind='signal-topk', scores=h['scores'], weights=h['weights'], label=c, k=k)
+          try:
+            got = bool(topk_accuracy.topk_accurate(np.array(h['scores'], dtype=float), c, k=k, **kw))
+          except Exception as e:  # pylint: disable=broad-exception-caught
+            chk.violation(f'signals:topk:exception:{type(e).__name__}:{"k>classes" if k > n else "k<=classes"}',
+                          f'scores={h["scores"]} weights={h["weights"]} label={c} k={k}: {e!r}', ctx)
+            continue
+          if got != want:
+            chk.violation(f'signals:topk:{"k>classes" if k > n else "k<=classes"}',
+                          f'scores={h["scores"]} weights={h["weights"]} label={c} k={k}: {got}, definition gives {want}', ctx)
+  else:
+    b, m, t = h['base'], h['model'], h['thr']
+    ctx = dict(kind='signal-flip', base=b, model=m, threshold=t)
+    for name, fn, want in (('binary', flip_masks.binary_flip_mask, h['binary']), ('neg_to_pos', flip_masks.neg_to_pos_flip_mask, h['neg_to_pos']),
+                           ('pos_to_neg', flip_masks.pos_to_neg_flip_mask, h['pos_to_neg'])):
+      for arr in (False, True):
+        args = (np.array([b]), np.array([m])) if arr else (b, m)
+        try:
+          got = fn(*args, threshold=t)
+          got = bool(np.asarray(got).reshape(-1)[0])
+        except Exception as e:  # pylint: disable=broad-exception-caught
+          chk.violation(f'signals:flip:{name}:exception:{type(e).__name__}', f'base={b} model={m} threshold={t}: {e!r}', ctx)
+          continue
+        if got != bool(want):
+          chk.violation(f'signals:flip:{name}', f'base={b} model={m} threshold={t}: {got}, definition gives {want}', ctx)
+
+
 def body(chk):
   thorough = chk.tier == 'thorough'
   rnd = random.Random(chk.seed)
@@ -307,10 +381,36 @@ def body(chk):
     replay_stats(chk, h, sc)
     chk.replayed()
   chk.count('stat_streams', len(hs))
+  # the same streams pairwise as 2-column inputs (same batch lengths)
+  by_shape = {}
+  for h in hs:
+    by_shape.setdefault(tuple(len(b) for b in h['stream']), []).append(h)
+  n2d = 0
+  for shape, group in by_shape.items():
+    rnd.shuffle(group)
+    for h, h2 in list(zip(group[::2], group[1::2]))[:(400 if thorough else 60)]:
+      replay_stats_2d(chk, h, h2, sc)
+      n2d += 1
+      chk.replayed()
+  chk.count('stat_streams_2d', n2d)
+  # 4. per-example signals
+  gc = dict(NClasses=3, MaxScore=4, Thresholds={0, 2, 4})
+  glaws = ['TopkMonotone', 'TopkAllAtN', 'TopkExactlyK', 'FlipPartition']
+  mc = tlc.run('algebra', 'Signals', tlc.cfg_text(constants=gc, invariants=glaws, deadlock=False), timeout=1800)
+  chk.add_tlc(mc, 'Signals/MC')
+  if not mc.ok:
+    chk.machinery_failure(f'Signals.tla violates {mc.error_name}')
+  gen = tlc.run('algebra', 'Signals', tlc.cfg_text(constants=gc, invariants=['Emit'], deadlock=False), workers=1, timeout=1800)
+  if not gen.ok:
+    chk.machinery_failure(f'Signals export failed: {gen.error_name}')
+  for h in gen.histories:
+    replay_signals(chk, h)
+    chk.replayed()
+  chk.count('signal_cases', len(gen.histories))
   chk.add_samples([dict(tp=1, fp=2, tn=0, fn=1)])
   chk.assumptions += ['exact rationals on the specification side, float comparison with relative tolerance 1e-9 on the implementation side',
                       'square roots and log2 discounts are applied by the harness to the emitted rationals / hit positions',
-                      'text-frequency metrics, calibration histogram, Tjur R^2, Pearson r and the signals are not transcribed (see DESIGN.md)',
+                      'text-frequency metrics, calibration histogram, Tjur R^2, Pearson r and the cross-entropy signals are not transcribed (see DESIGN.md)',
                       'the prevalence threshold is compared only where tpr and fpr are both defined']
 
 
